@@ -1391,6 +1391,10 @@ def run(ctx):
     empty_selection_check(ctx, get_setup('as', 593566, {
         'error': False, 'mask': False, 'wcs': True, 'sky': True, 'sigma_clip': False, 'sum_method': 'exact',
         'local_bkg': None, 'unit': True, 'shape': 'annulus', 'naper': 4, 'seed': 866782}))
+    # ... and on one built on pixel apertures (always exercised, whatever the random configurations are)
+    empty_selection_check(ctx, get_setup('as', 593566, {
+        'error': True, 'mask': False, 'wcs': False, 'sky': False, 'sigma_clip': False, 'sum_method': 'exact',
+        'local_bkg': None, 'unit': False, 'shape': 'circle', 'naper': 4, 'seed': 866782}))
     terms, results, seen_sigs = [], [], {}
     for d in descs:
         r = execute(d)
